@@ -374,6 +374,28 @@ func init() {
 		return StrV{s: "<error>"}, ctlRet
 	}, "zz.errorText")
 
+	// ---- unique.Make: one canonical cell per distinct (concrete) value ----
+	reg(func(c *callCtx) (Value, ctl) {
+		ks, ok := keyString(c.args[0])
+		if !ok {
+			panic(unsupportedf("unique.Make of a symbolic value"))
+		}
+		key := c.name + "|" + ks
+		wk := c.p.wk
+		if wk.uniq == nil {
+			wk.uniq = map[string]ObjID{}
+		}
+		id, ok := wk.uniq[key]
+		if !ok {
+			wk.initDepth++
+			o := c.p.h.alloc(nil, copyVal(c.args[0]), "unique.Make")
+			wk.initDepth--
+			id = o.id
+			wk.uniq[key] = id
+		}
+		return &StructV{f: []Value{PtrV{id: id}}}, ctlRet
+	}, "unique.Make")
+
 	// ---- encoding/json: reflection driven, replaced by an opaque document (JSON syntax is outside every claim) ----
 	reg(func(c *callCtx) (Value, ctl) {
 		c.p.usedStub = true
